@@ -36,6 +36,10 @@ def run(ctx, R, tier):
     from .c10 import err_gate_first
     err_gate_first(F, R, rule='B.C08.finish')
     static_end_in_step(F, R)
+    # '(at the one after, if the audio thread had not yet picked the resource up)': a resource picked up in a callback takes part in
+    # that callback's hand-over itself (new resources are taken over before the owner's items are polled)
+    from .c07 import first as picked_up_before_polled
+    picked_up_before_polled(F, R)
     from .c09 import end_rule
     end_rule(F, R, rule='B.C08.finish')
     keys(F, R)
